@@ -34,7 +34,8 @@ CHECKS = {
         technique="symbolic execution of the generated IR kernel; stored coordinates vs. structural-support oracle; bounded",
         text=("For every stored position of every compressed output level, z3 decides that the structural support of the "
               "expression (stored sets, products=intersection, sums=union, summation=projection, literals everywhere) is non-empty "
-              "under that coordinate, for all input sparsity patterns within the bounds."),
+              "under that coordinate, for all input sparsity patterns within the bounds. The separately generated assemble kernel of the "
+              "core corpus is checked the same way (it decides the stored structure on its own)."),
         design="DESIGN.md §4 C03"),
     "C04": dict(
         level="model_checking", engine="E1-KSE",
